@@ -205,6 +205,12 @@ def gen_case(rng: random.Random, pid: str, uid: str) -> dict:
             else:
                 acts.append(None)
         script[nm] = acts
+    if rng.random() < 0.03 and len(names) >= 2:
+        # a state that hands over with next_state_now() EVERY time it runs, for as long as the case runs (the scripts repeat)
+        a_, b_ = rng.sample(names, 2)
+        script[a_] = [["now", b_, False]] * len(script[a_])
+        script[b_] = [None] * len(script[b_])
+        script["__cyclic__"] = True
     always_disable = False
     if auto and rng.random() < 0.2:
         # done() followed at once by next_state_now(x): done() has the last word.  x is never a must_finish state - what a
@@ -288,7 +294,10 @@ def _vf_body(self, name, args):
     i = cnt.get(name, 0)
     cnt[name] = i + 1
     sc = self._vf_script.get(name)
-    act = sc[i] if sc and i < len(sc) else None
+    if sc and self._vf_script.get("__cyclic__"):
+        act = sc[i % len(sc)]
+    else:
+        act = sc[i] if sc and i < len(sc) else None
     if act:
         k = act[0]
         if k == "done":
@@ -690,6 +699,7 @@ class Driver:
     def _execute(self, now):
         m = self.mach.m
         log = self.mach.log
+        _set_tol(self, now)
         req_before = any(mm.req for mm in self.model.members)
         running_before = any(mm.running for mm in self.model.members)
         cs_before = m.current_state
@@ -907,6 +917,9 @@ class Driver:
                     adv = max(0, period + rng.randrange(-period // 3, period // 3 + 1))
                 elif clock == "random":
                     adv = rng.randrange(0, 6 * period) if not grid else GRID * rng.randrange(0, 7)
+                if rng.random() < 0.0015:
+                    adv = 2 ** 32 + (GRID * 3 if grid else 12345)          # the robot sits for 72 minutes
+                    self.ev("pause-of-72-minutes")
                 if (clock == "land" or rng.random() < 0.08):
                     mm = self.model.members[0]
                     if mm.running and mm.cur is not None and mm.cur.has_run and mm.cur.d is not None:
@@ -999,6 +1012,15 @@ class Driver:
         self.mach.close()
         if self.sib is not None:
             self.sib.close()
+
+
+def _set_tol(drv, now_us):
+    """Float tolerance of the tm / state_tm comparisons.  The library keeps its clock origin in float seconds and re-bases it
+    by addition at every restart: each execute() can add a rounding error of up to 2 ulp of the FPGA time.  1 ns plus that
+    bound - still far below the 1 us resolution of the clock even after thousands of iterations at 55 h of uptime."""
+    import math
+    drv._n_exec = getattr(drv, "_n_exec", 0) + 1
+    sm_model.TOL = 1e-9 + 2 * math.ulp(now_us / 1e6) * (drv._n_exec + 2)
 
 
 class _Stuck(BaseException):
@@ -1214,6 +1236,7 @@ class AutoDriver:
     def _iter(self, op):
         a, t = self.auto.m, self.twin.m
         now = self.now_us()
+        _set_tol(self, now)
         a.on_iteration(op[1])
         alog = list(self.auto.log)
         acalls = [(e[1], e[2]) for e in alog if e[0] == "state"]
